@@ -27,6 +27,8 @@
 From Lhasa Require Import Base ListN Generated Crc16 InputStream Header S_Header BasicReader Fs FsRun Reader
   P_ReaderCheck P_ReaderExtract Glob ListOut CliFilter CliExtract CliMain P_FsExtract P_CliExtract P_CliTree
   S_Capstone P_CapHeader P_CapItems P_CapMember P_CapReader P_Capstone P_CapCli.
+From Lhasa Require S_CapAny P_CapAnyRun P_FsConfine P_CapConfine.
+Import S_CapAny.
 From Coq Require Import ZifyBool ZifyN ZifyNat.
 Local Open Scope N_scope.
 
@@ -155,6 +157,30 @@ Proof.
   pose proof (dsizes_le_archive ds). lia.
 Qed.
 
+(* ---- 5. confinement (C10) from the bytes, link targets ARBITRARY ----
+   wf_descs_any (S_CapAny.v): wf_descs without "link targets are relative and free of '..'".
+   The tool returns; every operation of the run, the final phase that creates the dangerous links
+   included, resolved below the working directory /root; every symbolic link below it at the end is
+   a described link at its own path with its own target.  (With dangerous links the tree is not
+   promised: their directories' time stamps are lost, and a link whose directory was closed
+   read-only is not made -- P_CapConfineEx.exit_status_not_zero.) *)
+Theorem e2e_confined : forall mktime localtime strerror uid0 tnow mt ds,
+  wf_descs_any uid0 ds -> N.of_nat (2 * dsizes ds) < 2 ^ 40 ->
+  exists r, cli_run mktime localtime strerror uid0 tnow mt argv_x (archive_of ds) [] [] = Ok r /\
+    (cr_exit r = 0 \/ cr_exit r = 1) /\
+    (forall op, In op (fs_trace (cr_fs r)) -> P_FsConfine.below_op [bytes_root] op) /\
+    (forall suf t, Fs.node_at (fs_root (cr_fs r)) (bytes_root :: suf) = Some (Link t) -> In (suf, t) (links_of_descs ds)).
+Proof. exact P_CapConfine.e2e_confined. Qed.
+
+(* the descriptions of e2e_cli_run are among them *)
+Theorem e2e_wf_descs_is_any : forall uid0 ds, wf_descs uid0 ds -> wf_descs_any uid0 ds.
+Proof. exact P_CapAnyRun.wf_descs_is_any. Qed.
+
+(* the headers survive, whatever the targets *)
+Theorem e2e_headers_any : forall mktime uid0 d dl, Forall name_ok dl -> wf_desc_any uid0 dl d ->
+  Forall (fun s => wf_fields (sg_f s) = true /\ normalise mktime (sg_f s) = Some (sg_h s)) (segs_of dl d).
+Proof. exact P_CapAnyRun.headers_any. Qed.
+
 Print Assumptions e2e_headers.
 Print Assumptions e2e_upcoming.
 Print Assumptions e2e_extract_archive.
@@ -162,3 +188,6 @@ Print Assumptions e2e_cli_run.
 Print Assumptions e2e_cli_run_stdin.
 Print Assumptions e2e_cli_run_found.
 Print Assumptions e2e_cli_run_by_size.
+Print Assumptions e2e_confined.
+Print Assumptions e2e_wf_descs_is_any.
+Print Assumptions e2e_headers_any.
